@@ -89,8 +89,84 @@ def sample_of(run):
             "first_trials_x": [e["xf"] for e in run.events if e["ev"] == "trial"][:8]}
 
 
+AGP_INVS = {
+    "C02": ["MOK", "FlagOK", "QueueOK", "ChosenOK", "InsideOK", "FirstOK", "NoRepeat"],
+    "C03": ["CountOK", "AccOK", "NoLateIter", "StopNotifOK"],
+    "C04": ["BestOK"],
+    "C06": ["RecordOK"],
+    "C11": ["CountOK", "NoRepeat"],
+    "C13": ["NotifOK", "NotifTrialsOK", "StopNotifOK"],
+    "C16": ["RecordOK", "BestOK", "CountOK", "InsideOK", "NoRepeat", "StopNotifOK"],
+}
+AGP_PROPS = {
+    "C02": ["MMonotone"],
+    "C03": ["TrialsMonotone", "SolveOnFinished"],
+    "C11": ["SolveOnFinished"],
+}
+AGP_NEG = {"C02": [("NoFlagOnM", "FlagOK"), ("NoRequeueRight", "QueueOK")], "C03": [("AccFromNew", "AccOK")]}
+
+
+def agp_cfg(dim=1, r="2", eps="1/8", limit=5, vals=("0", "1", "2"), faults=False, maxcalls=2, maxbatch=3, maxtrials=6,
+            invs=(), props=(), variant="code", constraint=True):
+    c = ["SPECIFICATION Spec", "CONSTANT Dim = %d" % dim, "CONSTANT Exact = TRUE", 'CONSTANT Rr = "%s"' % r,
+         'CONSTANT Eps = "%s"' % eps, "CONSTANT Limit = %d" % limit,
+         "CONSTANT Vals = {%s}" % ", ".join('"%s"' % v for v in vals), "CONSTANT Faults = %s" % ("TRUE" if faults else "FALSE"),
+         "CONSTANT MaxCalls = %d" % maxcalls, "CONSTANT MaxBatch = %d" % maxbatch, "CONSTANT MaxTrials = %d" % maxtrials,
+         'CONSTANT Variant = "%s"' % variant, "CHECK_DEADLOCK FALSE"]
+    if constraint:
+        c.append("CONSTRAINT Bound")
+    c += ["INVARIANT %s" % i for i in invs] + ["PROPERTY %s" % p for p in props]
+    return "\n".join(c) + "\n"
+
+
 def agp_design_mc(ctx, pid):
-    return {"states": 0, "transitions": 0, "configs": []}
+    """Exhaustive runs of the design model AGP.tla (every objective with values in Vals, every public call pattern within
+    the bounds, every DEPQ tie-break; with Faults every failure position).  A failure here is a specification/machinery
+    problem (exit 2), never a VIOLATION of the code."""
+    from .common import run_batches
+    from .tlc import TLCError, require_ok, run_tlc
+    if pid not in AGP_INVS:
+        return {"states": 0, "transitions": 0, "configs": []}
+    invs, props = AGP_INVS[pid], AGP_PROPS.get(pid, [])
+    faults = pid == "C16"
+    cfgs = []
+    if ctx.quick:
+        cfgs.append(("N=1 r=2 eps=1/8 limit=5 Vals={0,1,2}", agp_cfg(faults=faults, invs=invs, props=props, maxtrials=5 if faults else 6)))
+        cfgs.append(("N=2 r=3 eps=1/2 limit=5 Vals={0,1}", agp_cfg(dim=2, r="3", eps="1/2", vals=("0", "1"), faults=faults, invs=invs, props=props, maxtrials=5)))
+    else:
+        for (r, eps, vals, limit, mt) in [("2", "1/8", ("0", "1", "2"), 7, 7), ("3", "1/10", ("0", "1", "2"), 6, 7), ("3/2", "1/4", ("0", "1", "3"), 6, 6),
+                                          ("2", "1/20", ("0", "1", "2", "5"), 6, 6), ("4", "1/8", ("-1", "0", "1/2"), 6, 7)]:
+            cfgs.append(("N=1 r=%s eps=%s limit=%d Vals=%s" % (r, eps, limit, "{" + ",".join(vals) + "}"),
+                         agp_cfg(r=r, eps=eps, limit=limit, vals=vals, faults=faults, invs=invs, props=props, maxtrials=mt - (1 if faults else 0))))
+        for (n, r, eps) in [(2, "3", "1/2"), (3, "2", "3/4"), (2, "2", "1/4")]:
+            cfgs.append(("N=%d r=%s eps=%s limit=6 Vals={0,1,2}" % (n, r, eps),
+                         agp_cfg(dim=n, r=r, eps=eps, limit=6, vals=("0", "1", "2"), faults=faults, invs=invs, props=props, maxtrials=6)))
+    if pid in ("C03", "C16"):
+        # termination of Solve under fairness, no state constraint (the call bounds make the space finite)
+        cfgs.append(("liveness N=1 r=2 eps=1/8 limit=%d Vals={0,1} faults" % (5 if ctx.quick else 6),
+                     agp_cfg(limit=5 if ctx.quick else 6, vals=("0", "1"), faults=True, maxbatch=2, maxtrials=100, constraint=False,
+                             props=["SolveReturns"])))
+    jobs = [lambda c=c: run_tlc("AGP", c, workers=4, timeout=3000, xmx="6g", coverage=True) for (_, c) in cfgs]
+    negs = AGP_NEG.get(pid, [])
+    njobs = [lambda v=v, i=i: run_tlc("AGP", agp_cfg(invs=[i], variant=v), workers=2, timeout=600) for (v, i) in negs]
+    results = run_batches(jobs + njobs, max_workers=5)
+    out = {"states": 0, "transitions": 0, "configs": []}
+    for (name, _), r in zip(cfgs, results):
+        require_ok(r, "AGP.tla " + name)
+        cov = r.coverage()
+        for act in ("UserDGI", "UserSolve", "SolveLoop", "Begin", "ObjReturns", "EndCall") + (("ObjRaises", "SolveTail") if "faults" in name or faults else ()):
+            if cov and cov.get(act, (0, 0))[1] == 0:
+                raise TLCError("vacuity: action %s never taken in AGP.tla %s" % (act, name))
+        out["states"] += r.distinct
+        out["transitions"] += r.generated
+        out["configs"].append({"module": "AGP", "config": name, "invariants": invs if "liveness" not in name else [], "properties": props if "liveness" not in name else ["SolveReturns"],
+                               "distinct": r.distinct, "generated": r.generated, "depth": r.depth,
+                               "actions": {k: v[1] for k, v in cov.items() if k[0].isupper() and k not in invs}})
+    for (v, i), r in zip(negs, results[len(cfgs):]):
+        if i not in r.violated:
+            raise TLCError("negative control: AGP.tla variant %s should violate %s but TLC reported %s" % (v, i, r.violated or "no error"))
+        out["configs"].append({"module": "AGP", "config": "negative control Variant=%s" % v, "refuted_invariant": i, "distinct": r.distinct})
+    return out
 
 
 # ------------------------------------------------------------------ C03
